@@ -1,5 +1,5 @@
 # replay of a bounded stand-in violation (C09/C10): re-run native/c09_engine.py
 import sys
-print("C10 gaussian homodyne-angle {'optimize': True}: the same program re-run with a = -0.52, b = 0.44 gives [0.0, 1.0, 0.0, 1.0, 0.1903, 0.7992, -0.0589, 1.2859], the substituted program [0.0, 1.0, 0.0, 1.0, 0.0181, 1.3326, 0.1984, 0.7525]")
+print('C10: im(q) of a measured parameter with outcome (0.3+0.4j) evaluates to 0j, the function of the outcome is (0.4+0j)')
 print('REPLAY-VIOLATION')
 sys.exit(1)
